@@ -68,9 +68,20 @@ func c02(r *Report) {
 	handle := r.Use("", "Proxy.handle")
 	hcr := r.Use("", "Proxy.handleConnectRequest")
 	loop := r.Use("", "Proxy.handleLoop")
-	rt := r.Use("", "Proxy.roundTrip")
-	if handle == nil || hcr == nil || loop == nil || rt == nil {
+	// the helper that performs the upstream round trip; when it has been inlined
+	// into the exchange function the rules about it are evaluated there
+	rt := r.W.Fn("", "Proxy.roundTrip")
+	if handle == nil || hcr == nil || loop == nil {
 		return
+	}
+	rtHost := handle
+	contact := "(net/http.RoundTripper).RoundTrip"
+	if rt != nil {
+		r.Touch(rt)
+		rtHost = rt
+		contact = "(*M.Proxy).roundTrip"
+	} else {
+		r.Note("(*M.Proxy).roundTrip is not a function of its own; the skip test and the transport call are looked for in (*M.Proxy).handle")
 	}
 
 	r.Guard("C02.R1", "request modifier exactly once before upstream contact, response modifier exactly once before the client write; p.reqmod/p.resmod invoked nowhere else", func() {
@@ -113,7 +124,7 @@ func c02(r *Report) {
 		}
 		one, zero := cnt{1, 1}, cnt{0, 0}
 		check(handle, []want{
-			{"(*M.Proxy).roundTrip", one, zero},
+			{contact, one, zero},
 			{"(*M.Proxy).handleConnectRequest", zero, zero},
 			{"(*net/http.Response).Write", one, one},
 		})
@@ -309,16 +320,49 @@ func c02(r *Report) {
 
 	r.Guard("C02.R5", "skip-round-trip causes zero upstream contact and a 200 bound to the request", func() {
 		contextFlagRules(r, "SkipRoundTrip", "SkippingRoundTrip")
-		rts := calls(rt, "(net/http.RoundTripper).RoundTrip")
-		skips := plainCalls(rt, "(*M.Context).SkippingRoundTrip")
+		rts := calls(rtHost, "(net/http.RoundTripper).RoundTrip")
+		skips := plainCalls(rtHost, "(*M.Context).SkippingRoundTrip")
 		if len(rts) != 1 || len(skips) != 1 {
 			r.Undecided("(*M.Proxy).roundTrip", fmt.Sprintf("UNRESOLVED: expected one RoundTrip and one SkippingRoundTrip call, found %d and %d", len(rts), len(skips)))
 			return
 		}
 		es := branchesOn(skips[0])
-		ok := len(es) == 1 && edgeDominates(es[0].If.Block(), 1, rts[0].Block()) && skips[0].Call.Args[0] == ssa.Value(rt.Params[1])
+		ownCtx := false
+		if rt != nil {
+			ownCtx = skips[0].Call.Args[0] == ssa.Value(rt.Params[1])
+		} else {
+			// in the exchange function: the context linked to this request
+			for _, lc := range plainCalls(handle, "M.link") {
+				if lc.Call.Args[1] == skips[0].Call.Args[0] {
+					ownCtx = true
+				}
+			}
+		}
+		ok := len(es) == 1 && edgeDominates(es[0].If.Block(), 1, rts[0].Block()) && ownCtx
 		r.Decide("path", "(*M.Proxy).roundTrip: RoundTrip only on the not-skipping edge", ok, "upstream call dominated by SkippingRoundTrip()==false on this exchange's context", "upstream RoundTrip is not guarded by the false edge of ctx.SkippingRoundTrip()", rts[0].Pos())
-		if len(es) == 1 {
+		if len(es) == 1 && rt == nil {
+			// the response the skipping edge produces is NewResponse(200, _, req) and is the one
+			// the response modifier gets on that edge
+			req := requestValue(handle)
+			ok2 := false
+			for _, c := range plainCalls(handle, nNewResp) {
+				code, _ := constInt(c.Call.Args[0])
+				if code != 200 || c.Call.Args[2] != req || !edgeDominatesTrue(es[0], c.Block()) {
+					continue
+				}
+				for _, m := range calls(handle) {
+					if isResMod(m) {
+						for _, l := range resolveAll(m.Common().Args[0]) {
+							if l == ssa.Value(c) {
+								ok2 = true
+							}
+						}
+					}
+				}
+			}
+			r.Decide("flow", "(*M.Proxy).roundTrip: skipping edge returns NewResponse(200, _, req)", ok2, "synthetic 200 bound to this request reaches the response modifier", "the skipping branch does not produce NewResponse(200, …, req) for the response modifier", skips[0].Pos())
+		}
+		if len(es) == 1 && rt != nil {
 			cl, _, _ := returnValuesFrom(es[0].True, 0)
 			ok2 := len(cl) > 0
 			for _, v := range cl {
@@ -341,14 +385,16 @@ func c02(r *Report) {
 				ld, isLd := c.Common().Value.(*ssa.UnOp)
 				if isLd && isFieldRef(ld.X, M, "Proxy", "roundTripper") {
 					n++
-					r.Decide("callgraph", "user of Proxy.roundTripper: "+site(f, c), f == rt, "only roundTrip uses the transport", "the proxy's transport is invoked outside roundTrip, bypassing the skip test", c.Pos())
+					r.Decide("callgraph", "user of Proxy.roundTripper: "+site(f, c), f == rtHost, "only roundTrip uses the transport", "the proxy's transport is invoked outside roundTrip, bypassing the skip test", c.Pos())
 				}
 			}
 		}
-		r.dynamicCallerRule(rt, "upstream contact outside the exchange function")
-		// roundTrip is called from the exchange function only
-		for _, c := range w.staticCallers(rt) {
-			r.Decide("callgraph", "caller of roundTrip: "+site(c.Parent(), c), c.Parent() == handle, "called from the exchange function", "roundTrip called from an unexpected function", c.Pos())
+		if rt != nil {
+			r.dynamicCallerRule(rt, "upstream contact outside the exchange function")
+			// roundTrip is called from the exchange function only
+			for _, c := range w.staticCallers(rt) {
+				r.Decide("callgraph", "caller of roundTrip: "+site(c.Parent(), c), c.Parent() == handle, "called from the exchange function", "roundTrip called from an unexpected function", c.Pos())
+			}
 		}
 	})
 
@@ -367,7 +413,7 @@ func c02(r *Report) {
 						return false
 					}
 					switch calleeName(cc) {
-					case "(*net/http.Response).Write", "(*bufio.Writer).Flush", "(*bufio.Reader).Read", "(*M.Proxy).handle", "(*M.Proxy).roundTrip", "(*M.Proxy).connect", "io.Copy", "(*M/h2.Config).Proxy":
+					case "(*net/http.Response).Write", "(*bufio.Writer).Flush", "(*bufio.Reader).Read", "(*M.Proxy).handle", "(*M.Proxy).roundTrip", "(net/http.RoundTripper).RoundTrip", "(*M.Proxy).connect", "io.Copy", "(*M/h2.Config).Proxy":
 						return true
 					}
 					return isReqMod(cc) || isResMod(cc)
@@ -418,7 +464,7 @@ func c02(r *Report) {
 						return false
 					}
 					switch calleeName(c) {
-					case "(*net/http.Response).Write", "(*bufio.Writer).Flush", "(*bufio.Reader).Read", "(*M.Proxy).handle", "(*M.Proxy).roundTrip", "(*M.Proxy).connect", "io.Copy":
+					case "(*net/http.Response).Write", "(*bufio.Writer).Flush", "(*bufio.Reader).Read", "(*M.Proxy).handle", "(*M.Proxy).roundTrip", "(net/http.RoundTripper).RoundTrip", "(*M.Proxy).connect", "io.Copy":
 						return true
 					}
 					return false
